@@ -7,4 +7,5 @@ CONF = {
     "C07": dict(pkg="props/c07", quick=dict(checks=2500, shards=8, timeout=600), thorough=dict(checks=60000, shards=16, timeout=3600)),
     "C02": dict(pkg="props/c02", quick=dict(checks=1500, shards=8, timeout=600), thorough=dict(checks=60000, shards=16, timeout=3600)),
     "C08": dict(pkg="props/c08", quick=dict(checks=1500, shards=8, timeout=600), thorough=dict(checks=60000, shards=16, timeout=3600)),
+    "C09": dict(pkg="props/c09", quick=dict(checks=1000, shards=8, timeout=600), thorough=dict(checks=40000, shards=16, timeout=3600)),
 }
